@@ -6,15 +6,16 @@ O1 == {"o1"}
 O2 == {"o1", "o2"}
 O3 == {"o1", "o2", "o3"}
 \* two threads sharing one object in one process
-Obj_shared2 == [t \in T2 |-> "o1"]
+Obj_shared2 == [t \in T2 |-> {"o1"}]
 Proc_one2 == [t \in T2 |-> "p1"]
 \* two objects in one process
-Obj_own2 == ("t1" :> "o1") @@ ("t2" :> "o2")
+Obj_own2 == ("t1" :> {"o1"}) @@ ("t2" :> {"o2"})
+Obj_any2 == [t \in T2 |-> {"o1", "o2"}]
 \* two processes
 Proc_two2 == ("t1" :> "p1") @@ ("t2" :> "p2")
 \* three threads: t1,t2 share o1 in p1; t3 has o2 in p2
-Obj_mix3 == ("t1" :> "o1") @@ ("t2" :> "o1") @@ ("t3" :> "o2")
+Obj_mix3 == ("t1" :> {"o1"}) @@ ("t2" :> {"o1"}) @@ ("t3" :> {"o2"})
 Proc_mix3 == ("t1" :> "p1") @@ ("t2" :> "p1") @@ ("t3" :> "p2")
-Obj_own3 == ("t1" :> "o1") @@ ("t2" :> "o2") @@ ("t3" :> "o3")
+Obj_own3 == ("t1" :> {"o1"}) @@ ("t2" :> {"o2"}) @@ ("t3" :> {"o3"})
 Proc_three3 == ("t1" :> "p1") @@ ("t2" :> "p2") @@ ("t3" :> "p3")
 =============================================================================
